@@ -250,6 +250,7 @@ def run(ctx):
     ctx.guarded('C08-unbound', d_ub >= 4, _old_unbound)
 
     scope_set_rule(ctx, fb)
+    state_restored_rule(ctx, fb)
 
     # ------------------------------------------------------------------ C08-vector
     ctx.rule("C08-vector", "vector index misses are Err(VectorIndexOutOfBounds); no indexing operator on vector storage; "
@@ -481,6 +482,67 @@ def _straight(f, b, n=12):
         b = s[0]
         out.append(b)
     return out
+
+
+CELL_WRITES = ("Cell::set", "Cell::replace", "Cell::take", "Cell::swap", "Cell::update", "RefCell::borrow_mut", "RefCell::replace", "RefCell::replace_with",
+               "RefCell::swap", "RefCell::take", "Cell<T>::set", "Cell<T>::replace", "RefCell<T>::borrow_mut", "RefCell<T>::replace")
+
+
+def state_restored_rule(ctx, fb):
+    """per-thread state that a function writes on the way in and writes again on the way out (a depth counter, a saved-and-restored
+    setting): if every normal way out passes the second write but an error exit (`?`) does not, the failed form leaves the state
+    behind and later forms are evaluated under it.  (One-sided pairing: the code itself says the second write belongs to the way
+    out.)"""
+    ctx.rule("C08-state-restored", "after an error the interpreter evaluates later forms as before: per-thread state written on entry of a "
+                                   "function and written back on its normal exits is written back on its error exits too")
+    n_keys = 0
+    for f in fb.all("lib"):
+        if f.derived or "::tests::" in f.name:
+            continue
+        by_key = {}
+        for b, t in f.calls():
+            c = callee(t) or ""
+            if not c.startswith("std::thread::LocalKey::") or f.blocks[b]["cleanup"]:
+                continue
+            meth = c.rsplit("::", 1)[-1]
+            writes = meth in ("set", "replace", "take", "update", "with_borrow_mut")
+            if meth in ("with", "try_with") and len(t.get("args", [])) > 1:
+                clo = mir.trace_aggregate(f, t["args"][1])
+                cf = fb.by_path(mir.norm(clo["kind"]["def"]), f.crate) if clo and clo.get("kind", {}).get("k") == "closure" else None
+                if cf is not None:
+                    writes = any(callee_matches(tt, *CELL_WRITES) for _, tt in cf.calls())
+            key = mir.tls_key(f, t)
+            if key is None:
+                continue
+            by_key.setdefault(key, []).append((b, writes))
+        for key, sites in sorted(by_key.items()):
+            W = sorted({b for b, wr in sites if wr})
+            if len(W) < 2:
+                continue
+            dom = f.dominators()
+            firsts = [w for w in W if all(w in dom.get(x, ()) for x in W)]
+            if len(firsts) != 1:
+                continue
+            first = firsts[0]
+            later = [w for w in W if w != first]
+            start = f.blocks[first]["term"].get("target")
+            if start is None:
+                continue
+            rets = f.return_blocks()
+            n_keys += 1
+            residual = [b for b, t in f.calls() if callee_matches(t, "FromResidual>::from_residual", "FromResidual::from_residual")]
+            skipping = mir.paths_avoiding(f, start, rets, later)
+            skipping_normal = mir.paths_avoiding(f, start, rets, later + residual)
+            short = key.rsplit("::", 1)[-1]
+            ctx.inst("C08-state-restored", "%s/%s" % (f.name.rsplit("::", 1)[-1], short), {"writes": len(W), "exit_skipping_the_later_writes": bool(skipping),
+                                                                                           "normal_exit_skipping_them": bool(skipping_normal)})
+            ctx.oblige(not (skipping and not skipping_normal))
+            if skipping and not skipping_normal:
+                ctx.report("C08-state-restored", "%s/%s" % (f.name.rsplit("::", 1)[-1], short),
+                           "%s writes the per-thread state %s on the way in and writes it again on every normal way out, but an error exit "
+                           "(`?`, blocks %s) returns without the second write: a form that fails here leaves the state behind, and later "
+                           "forms (on any interpreter of the thread) are evaluated under it" % (f.name, key, skipping[-4:]), where_of(f))
+    ctx.inst("C08-state-restored", "functions-with-paired-thread-local-writes", {"count": n_keys})
 
 
 def scope_set_rule(ctx, fb):
